@@ -20,4 +20,5 @@ def run(F, X, rep):
     R.p2_exactly_one_answer(C, rep, "C07-U2")
     R.a3_one_lifecycle_per_entry(C, rep, "C07-U2")
     H.u3_reject_before_add(C, rep, "C07-U3")
+    H.p4b_answer_only_via_lifecycle(C, rep, "C07-U3")
     R.u4_fail_arm_forwards(C, rep, "C07-U4")
